@@ -293,6 +293,31 @@ fn exec_case(ops: &[String], run: &mut Run) {
                             &format!("selection {:?} although at most {} of {} voters share a point (minimum {})", ids, best, voters.len(), p.min),
                         );
                     }
+                    // "agreeing ⊆ output": some point whose containing voters are >= min, a strict majority, and
+                    // ALL selected (the sources that form the consensus must be the ones that are used)
+                    if well_formed {
+                        let mut found = false;
+                        for v in &voters {
+                            let x = lo(v);
+                            let agreeing: Vec<u64> =
+                                voters.iter().filter(|c| lo(c) <= x && x <= hi(c)).map(|c| c.index.0).collect();
+                            if agreeing.len() >= p.min
+                                && 2 * agreeing.len() > voters.len()
+                                && agreeing.iter().all(|i| ids.contains(i))
+                            {
+                                found = true;
+                                break;
+                            }
+                        }
+                        if !found {
+                            run.oracle_fail(
+                                "agreeing_not_selected",
+                                &format!("voters={} min={}", voters.len(), p.min),
+                                &format!("selection {:?}: no common point whose agreeing voters are a sufficient majority and all selected", ids),
+                            );
+                        }
+                        run.hit("agreeing-checked");
+                    }
                     run.hit(if out.len() == p.cands.len() { "selected-all" } else { "selected-some" });
                     run.nontrivial(op);
                 } else {
